@@ -90,7 +90,7 @@ def plan(tier, seed):
                 shards.append([dict(a=i, b=j, sep=80.0, axis='x', order=o, lib='multi', serials='distinct', keep=True) for o in (0, 1)])
     return dict(shards=shards, exhaustive=True,
                 rule=('parts: %d library entries; unions of every ordered pair (A=B included) at nearest-atom separations %s A along '
-                      'axes %s, B first or second in the file, joined with TER and (exposed pairs, windows) by plain concatenation; whole reference files next to 2-3 copies of another one (100 A); multi-conformation parts (letter / digit / blank alt-loc labels, distinct or overlapping serials). non-trivial = distinct unions in which both parts carry at least one '
+                      'axes %s, B first or second in the file, joined with TER and (exposed pairs, windows) by plain concatenation; whole reference files next to 2-3 copies of another one (100 A); multi-conformation parts (letter / digit / blank alt-loc labels, distinct or overlapping serials). a single-conformation part with its hydrogens supplied off the ideal positions next to a multi-conformation part under --keep-protons (the single-conformation part is compared in every conformation of the union and in the average). non-trivial = distinct unions in which both parts carry at least one '
                       'group with a determinant or a non-zero desolvation term') % (len(ps), list(seps), list(axes)),
                 bounds=dict(parts=len(ps), separations=list(seps), axes=list(axes)),
                 samples=[dict(a=ps[0], b=ps[2], sep=1001.0, axis='x', order=0)])
